@@ -55,5 +55,15 @@ pub fn all() -> Vec<CheckDef> {
         real: vec!["Http1Codec (listen, decode_request, StreamSource/StreamSink)", "HttpDownstream", "Tunnel", "TcpForwarder", "http_forwarded_stream (plain POST)", "DuplexPipe"],
         simulated: vec!["client transport (segmentation, arrival times, read sizes)", "resolver", "destination", "clock"],
         not_run: vec!["TLS", "metrics listener's use of Http1Codec (see C16)"],
+    },
+    CheckDef {
+        property: "C14",
+        scenarios: vec![("timeouts", 100)],
+        level: "exploration",
+        rule: "idle: tunnels (both protocols) with 0-25 planned transfers at 1-103 % of T apart (one-sided, alternating, exactly at the deadline +-1 ms), optional half-close of either side (HTTP/2) and back-pressure stalls, then silence; establishment: resolver + connect taking 30-150 % of the limit, or never completing; oracle on the virtual clock: never closed while the longest silence stays below T, closed within [last activity + T, last activity + 2T] after, 502/302 at the limit, pending connect dropped, sockets released; non-trivial = the tunnel was established (idle) or the request answered (establishment); distinct = distinct world event trace",
+        assumptions: vec![KERNEL, NO_H3, "every simulated time-out carries a sub-millisecond fraction: tokio's paused clock lands exactly on deadlines whereas real timers fire late and the endpoint compares strictly (DESIGN.md 3.2)", "durations within 3 ms of a limit are undecided", "client_listener_timeout is a different timer (it ends an HTTP/1.1 session after ten minutes whatever its activity) and is set far away", "the TLS handshake time-out is decided by the `handshake` scenario"],
+        real: vec!["DuplexPipe/SimplexPipe (per-direction timeout, expiry test)", "Tunnel::on_tcp_connect_request (establishment timeout)", "TcpForwarder", "codecs"],
+        simulated: vec!["clock (tokio paused, auto-advance)", "client and destination", "resolver", "outbound TCP"],
+        not_run: vec!["QUIC/HTTP3"],
     }]
 }
